@@ -1,3 +1,3 @@
-import Props.SlicesGen
+import Props.GenJoin
 open Model.SlicesGen
 #print axioms logDifference_eq
